@@ -54,7 +54,7 @@ pub struct IndexRead {
     pub stats: IndexReadStats,
 
     /// True if the hunk file most recently read was zero-length.
-    last_read_was_empty: bool,
+    pub(crate) last_read_was_empty: bool,
 }
 
 impl IndexRead {
